@@ -24,10 +24,14 @@ From IastRw Require Import Sem P_Sem.
 (** For every world -- every way of answering [+], property reads and calls, and every way the user
     variables may change after each interaction -- every set of instrumented method names, and every
     source expression built from string literals, variables, [+], calls, method calls with no or one
-    argument, compound assignments [x += e] and [o.k += e], and parentheses:
+    argument, compound assignments [x += e] and [o.k += e], template literals with one or two
+    substitutions, and parentheses:
     the rewritten expression yields the same outcome (value or exception) and the same history of
     interactions as the source, from any counter value and any temporary store, and it writes only
-    temporaries in the range it allocated.  ([rw] is the function the check ties to the code: SemTie.v.) *)
+    temporaries in the range it allocated.  ([rw] is the function the check ties to the code: SemTie.v.)
+    Template literals are given the representative the property names: a substitution is coerced to a string
+    after the later substitutions have been evaluated ([Sem.eval], [Tpl2]); the coercion of an object is an
+    interaction with the world ([EvStr]) like any other. *)
 Theorem C01_core_equivalence :
   forall (respond : hist -> event -> resp) (ustore : hist -> string -> value)
          (instr lit_ok : string -> bool) (e : expr),
@@ -68,5 +72,10 @@ Example C01_core_example :
   (* o().p += s : the object is evaluated once *)
   fst (rw all all (AddAsgM (CallE (Var "o") (Var "z")) "p" (Var "s")) 0) =
     Hoist1 0 (CallE (Var "o") (Var "z"))
-      (AsgM (Tmp 0) "p" (Hoist1 1 (Get (Tmp 0) "p") (Hook (Add (Tmp 1) (Var "s")) [Tmp 1; Var "s"]))).
+      (AsgM (Tmp 0) "p" (Hoist1 1 (Get (Tmp 0) "p") (Hook (Add (Tmp 1) (Var "s")) [Tmp 1; Var "s"]))) /\
+  (* `a${x}b${f(y)}c` : identifiers are captured too; a template with a literal substitution is left alone *)
+  fst (rw all all (Tpl2 "a" (Var "x") "b" (CallE (Var "f") (Var "y")) "c") 0) =
+    Hoist2 0 (Var "x") 1 (CallE (Var "f") (Var "y")) (Hook (Tpl2 "a" (Tmp 0) "b" (Tmp 1) "c") [Tmp 0; Tmp 1]) /\
+  fst (rw all all (Tpl2 "" (Lit (VStr "l")) "" (Add (Var "x") (Var "y")) "") 0) =
+    Tpl2 "" (Lit (VStr "l")) "" (Add (Var "x") (Var "y")) "".
 Proof. repeat split; reflexivity. Qed.
